@@ -528,6 +528,21 @@ func (pool *TxPool) demoteUnexecutables() {
 				pool.enqueueTx(hash, tx)
 			}
 		}
+		// A reset that lowers the account nonce can leave a gap further up: only part
+		// of the transactions dropped by the reorg may have been re-injected and
+		// promoted in front of the old run. Everything above the first missing nonce
+		// is not executable, postpone it.
+		if list.Len() > 0 {
+			next := nonce
+			for list.txs.Get(next) != nil {
+				next++
+			}
+			for _, tx := range list.txs.Filter(func(tx *types.Transaction) bool { return tx.Nonce() > next }) {
+				hash := tx.Hash()
+				logging.Trace("Demoting gapped pending transaction", "hash", hash)
+				pool.enqueueTx(hash, tx)
+			}
+		}
 		if list.Empty() {
 			delete(pool.pending, addr)
 			delete(pool.beats, addr)
